@@ -393,6 +393,10 @@ class Ellipse:
             sma = sma0
 
         # Override geometry instance with parameters set at the call.
+        # The overrides hold only for this call: the settings of the
+        # geometry instance are restored before returning.
+        geometry_settings = (self._geometry.linear_growth,
+                             self._geometry.fix)
         if isinstance(linear, bool):
             self._geometry.linear_growth = linear
         else:
@@ -402,7 +406,6 @@ class Ellipse:
                           AstropyUserWarning)
             return IsophoteList([])
         if fix_center or fix_pa or fix_eps:
-            # Note that this overrides the geometry instance for good.
             self._geometry.fix = np.array([fix_center, fix_center, fix_pa,
                                            fix_eps])
 
@@ -431,6 +434,8 @@ class Ellipse:
                 if len(isophote_list) == 1:
                     warnings.warn('No meaningful fit was possible.',
                                   AstropyUserWarning)
+                    (self._geometry.linear_growth,
+                     self._geometry.fix) = geometry_settings
                     return IsophoteList([])
 
                 self._fix_last_isophote(isophote_list, -1)
@@ -506,6 +511,9 @@ class Ellipse:
 
         # sort list of isophotes according to sma
         isophote_list.sort()
+
+        (self._geometry.linear_growth,
+         self._geometry.fix) = geometry_settings
 
         return IsophoteList(isophote_list)
 
